@@ -184,13 +184,6 @@ theorem c18_marker_first_chars : Facts.H.cosmeticMarkerFirstChars = [ch '#', ch 
 
 /-! Non-vacuity -/
 
-def c18Ext : Ext where
-  psl := fun _ => ([], false)
-  parseAddr := fun s =>
-    if s == lit "0.0.0.0" then some { is4 := true, val := 0 }
-    else if s == lit "::ffff:1.2.3.4" then some { is4 := false, val := 281470698652420 } else none
-  parsePrefix := fun _ => none
-  pat := fun _ _ _ => false
 
 /-- The two D11 replays, on the model of the repaired code. -/
 example : (newHostRule c18Ext (fun _ => true) (lit "0.0.0.0 example.org#note") 1).toOption.map (·.hostnames) =
